@@ -36,7 +36,7 @@ def one(rng):
     with quiet():
         res = grammar.binarize(g, **args)
     out = gram.enc_grammar(res)
-    lines.append(Line("corr", "binarize", [reord or "none", gram.enc_markov(mo), gram.enc_grammar(g)], out))
+    lines.append(Line("corr", "binarize", [reord or "none", gram.enc_markov(mo), gram.enc_grammar(g)], out, canon=gram.canon_grammar))
     lines.append(Line("pred", "P.C08", [enc, out, lenc, ""]))
     # "every grammar produced": what the writer puts into the count field balances in the same way
     import cli
